@@ -9,6 +9,7 @@ import (
 	"verif/dsim/props/c17"
 	"verif/dsim/props/c18"
 	"verif/dsim/props/c19"
+	"verif/dsim/props/c20"
 )
 
 func main() {
@@ -19,6 +20,7 @@ func main() {
 		"C17": c17.H{},
 		"C18": c18.Ring{},
 		"C19": c19.Ring{},
+		"C20": c20.H{},
 	}
 	harness.Main(reg)
 }
